@@ -418,6 +418,10 @@ func removeFromCollection(col ItemCollection, items ...Item) ItemCollection {
 	for _, ob := range col {
 		found := false
 		for _, it := range items {
+			// NOTE: nil entries are left alone, they have no id to compare
+			if IsNil(ob) || IsNil(it) {
+				continue
+			}
 			if ob.GetID().Equals(it.GetID(), false) {
 				found = true
 				break
